@@ -39,13 +39,28 @@ cfn("connectedpixels.c:connectedpixels",
             + T("C11", "forall(0, ns*nf, lambda p: (labels[p] == 0) == (data[p] <= threshold))"),
     props=["C11", "C20"])
 
+# blobproperties: every sum accumulator of an arbitrary (ghost) label k0 is the double sum over rows and columns of the pixels carrying
+# that label.  k0 is a ghost constant, so the clauses hold for every label; inner sums are parametric in the row.
+BP_ACC = [("s_1", "1"), ("s_I", "I"), ("s_I2", "I*I"), ("s_fI", "f*I"), ("s_ffI", "f*f*I"), ("s_sI", "s*I"), ("s_ssI", "s*s*I"),
+          ("s_sfI", "s*f*I"), ("s_oI", "o*I"), ("s_ooI", "o*o*I"), ("s_soI", "s*o*I"), ("s_foI", "f*o*I")]
+BP_LOC = {"brow": "(k0 - 1)*NPROPERTY"}
+for _n, _e in BP_ACC:
+    # contribution of pixel (s, f) with I = data[s*nf + f], o = omega
+    _c = "(lambda s, f: (lambda I, o: ite(labels[s*nf + f] == k0, real(%s), real(0)))(data[s*nf + f], omega))" % _e
+    BP_LOC["in_" + _n] = "lambda n, r: rsump('bp_in_%s', n, lambda q, rr: %s(rr, q), [r], 0, 'real')" % (_n, _c)
+    BP_LOC["all_" + _n] = "lambda n: rsum('bp_all_%s', n, lambda r: in_%s(nf, r), 0, 'real')" % (_n, _n)
 cfn("connectedpixels.c:blobproperties",
-    lens={"data": "ns*nf", "labels": "ns*nf", "res": "npk*NPROPERTY"}, defined={"res": False},
-    outputs={"res": "0..npk*NPROPERTY"}, assigns=["res"],
-    requires=["ns >= 0", "nf >= 0", "ns < INT_MAX", "nf < INT_MAX", "ns*nf <= INT_MAX", "npk >= 0", "npk*NPROPERTY <= INT_MAX"],
-    loops={0: ["forall(0, i*NPROPERTY, lambda q: defined(res, q))"],
-           2: ["forall(0, npk*NPROPERTY, lambda q: defined(res, q))", "0 <= bad", "bad <= i*nf", "isdef('bad')"],
-           3: ["forall(0, npk*NPROPERTY, lambda q: defined(res, q))", "0 <= i", "i < ns", "0 <= bad", "bad <= i*nf + j", "isdef('bad')"]},
+    lens={"data": "ns*nf", "labels": "ns*nf", "res": "npk*NPROPERTY"}, defined={"res": False}, ghosts=["k0"],
+    outputs={"res": "0..npk*NPROPERTY"}, assigns=["res"], locals=BP_LOC,
+    requires=["ns >= 0", "nf >= 0", "ns < INT_MAX", "nf < INT_MAX", "ns*nf <= INT_MAX", "npk >= 0", "npk*NPROPERTY <= INT_MAX"]
+             + T("C12", "1 <= k0", "k0 <= npk"),
+    loops={0: ["forall(0, i*NPROPERTY, lambda q: defined(res, q))"]
+              + T("C12", "implies(k0 - 1 < i, And_(%s))" % ", ".join("res[brow + %s] == 0" % n for n, _ in BP_ACC)),
+           2: ["forall(0, npk*NPROPERTY, lambda q: defined(res, q))", "0 <= bad", "bad <= i*nf", "isdef('bad')"]
+              + T("C12", *["res[brow + %s] == all_%s(i)" % (n, n) for n, _ in BP_ACC]),
+           3: ["forall(0, npk*NPROPERTY, lambda q: defined(res, q))", "0 <= i", "i < ns", "0 <= bad", "bad <= i*nf + j", "isdef('bad')"]
+              + T("C12", *["res[brow + %s] == all_%s(i) + in_%s(j, i)" % (n, n, n) for n, _ in BP_ACC])},
+    ensures=T("C12", *["res[brow + %s] == all_%s(ns)" % (n, n) for n, _ in BP_ACC]),
     props=["C12", "C20"])
 
 cfn("connectedpixels.c:blob_moments", lens={"res": "np*NPROPERTY"}, assigns=["res"],
